@@ -394,6 +394,12 @@ func (c *w2cfg) serveUpstream(rc *RunCtx, up int, network string) func(sc *simne
 				}
 				simrt.Probe("w2.upstream_reply_with_opt")
 			}
+			if simrt.Choose(12) == 0 {
+				// an upstream may set TC on whatever it sends (it cut the answer to the
+				// size mosdns advertised, not to what mosdns' client can take)
+				r.Truncated = true
+				simrt.Fault("upstream_reply_with_tc")
+			}
 			out, err := r.Pack()
 			if err != nil {
 				continue
